@@ -391,16 +391,28 @@ def run_code(dgms, hom_deg, dtype=float):
         raise common.HarnessError("persim.landscapes.exact._VERIF_TRACE is None: the PERSIM_VERIF hook is off")
     del trace[:]
     old = signal.signal(signal.SIGALRM, _alarm)
-    signal.setitimer(signal.ITIMER_REAL, HANG_S)
+    # the alarm REPEATS every quarter second after HANG_S: an exception raised by a signal handler is lost when it lands in a
+    # place where Python ignores exceptions (the clean-up of the generator of `all(... for _ in A)`), and a one-shot alarm
+    # lost there would let a non-terminating sweep grow its lists for ever
+    signal.setitimer(signal.ITIMER_REAL, HANG_S, 0.25)
+    hung = False
     try:
-        with np.errstate(all="ignore"):
-            st, v, _ = call(mod.PersLandscapeExact, dgms=[arr(D, dtype) for D in dgms], hom_deg=hom_deg)
-    except Hang:
+        try:
+            try:
+                with np.errstate(all="ignore"):
+                    st, v, _ = call(mod.PersLandscapeExact, dgms=[arr(D, dtype) for D in dgms], hom_deg=hom_deg)
+            finally:
+                signal.setitimer(signal.ITIMER_REAL, 0)
+        except Hang:
+            hung = True
+    except Hang:                                  # a second alarm while the first was unwinding
+        signal.setitimer(signal.ITIMER_REAL, 0)
+        hung = True
+    finally:
+        signal.signal(signal.SIGALRM, old)
+    if hung:
         del trace[:]
         return "hang", "no result within %.0f s" % HANG_S, 0
-    finally:
-        signal.setitimer(signal.ITIMER_REAL, 0)
-        signal.signal(signal.SIGALRM, old)
     fired = sum(1 for x in trace if x[0] == "repeated-bar-shortcut")
     del trace[:]
     if st == "err":
